@@ -148,7 +148,8 @@ Definition space_list_check (st : pstate) (under_group : option nat) : res bool 
     | None => impl_err
     | Some ln =>
       let is_value := is_value_like (n_def ln) in
-      let is_group_value := is_group_like (n_def ln) && negb (opt_nat_eqb (last_left st) under_group) in
+      let is_group_value := (definition_eqb (n_def ln) D_Group || definition_eqb (n_def ln) D_NestedExpression)
+                            && negb (opt_nat_eqb (last_left st) under_group) in
       let is_suffix_value := secondary_eqb (n_sec ln) S_UnarySuffix in
       Ok (if is_value || is_group_value || is_suffix_value then true else check_for_list st)
     end
